@@ -238,15 +238,21 @@ let spans_cmd = function
   | [lo; hi; v] -> pb (spans_ordered (to_nat lo) (to_nat hi) (to_value v))
   | _ -> failwith "spans args"
 
-(* (runscript fuel (r p) (((r p) ((r p) ...)) ...)) -> (fin (st v p) ((r p) ...))   log oldest first *)
+(* (runscript fuel (r p) (((r p) ((k r p) | (u r p) ...)) ...)) -> (fin (st v p) ((r p) ...) ustarts)   log oldest first;
+   (k r p) = memoised call, (u r p) = the body of (r p) called through an unhashable key *)
 let to_key = function L [r; p] -> (to_nat r, to_nat p) | _ -> failwith "key"
+let to_call = function
+  | L [A "k"; r; p] -> CK (to_nat r, to_nat p)
+  | L [A "u"; r; p] -> CU (to_nat r, to_nat p)
+  | _ -> failwith "call"
 let pkey (r, p) = "(" ^ pn r ^ " " ^ pn p ^ ")"
 let runscript = function
   | [fuel; start; scr] ->
-    let scr = to_list (function L [k; cs] -> (to_key k, to_list to_key cs) | _ -> failwith "scr") scr in
-    let (s, fin) = run_script scr (to_nat fuel) (to_key start) in
+    let scr = to_list (function L [k; cs] -> (to_key k, to_list to_call cs) | _ -> failwith "scr") scr in
+    let depth = nat_of_int (List.length scr + 1) in
+    let (s, fin) = run_script scr depth (to_nat fuel) (to_key start) in
     let ((st, v), p) = s.cur in
-    "(" ^ pb fin ^ " (" ^ pb st ^ " " ^ pn v ^ " " ^ pn p ^ ") " ^ plist pkey (List.rev s.log) ^ ")"
+    "(" ^ pb fin ^ " (" ^ pb st ^ " " ^ pn v ^ " " ^ pn p ^ ") " ^ plist pkey (List.rev s.log) ^ " " ^ pn s.ustarts ^ ")"
   | _ -> failwith "runscript args"
 
 (* ---- C15: trees with identities ---- *)
